@@ -541,3 +541,49 @@ func TestRetentionWindow(t *testing.T) {
 		lib.Sample(map[string]any{"test": "RetentionWindow", "window": window.String(), "offsets": offsets, "in_window_checks": checked})
 	})
 }
+
+// ---------- re-acceptance after the repository has been idle ----------
+
+// "A key ... is accepted again after it expired" (documented: at most 50% later than the window, it depends on the clean-up
+// cycle) - also for the first key that arrives after the repository has been empty for a long time (many windows).
+// Wall-clock: the bound used is 1.5 x window + 0.6 s, and a miss is confirmed by a second, independent measurement.
+func reacceptAfterIdle(window, idle time.Duration, key string) (time.Duration, error) {
+	repo, err := middleware.NewMapExpiringKeyRepository(window)
+	if err != nil {
+		return 0, err
+	}
+	time.Sleep(idle)
+	if dup, _ := repo.IsDuplicate(context.Background(), key); dup {
+		return 0, fmt.Errorf("a fresh key is reported as a duplicate")
+	}
+	t0 := time.Now()
+	for time.Since(t0) < 7*lib.Live {
+		time.Sleep(window / 4)
+		if dup, _ := repo.IsDuplicate(context.Background(), key); !dup {
+			return time.Since(t0), nil
+		}
+	}
+	return time.Since(t0), nil
+}
+
+func TestReacceptanceAfterIdle(t *testing.T) {
+	rapid.Check(t, func(t *rapid.T) {
+		expiryCases.Add(1)
+		window := time.Duration(rapid.IntRange(20, 60).Draw(t, "windowMs")) * time.Millisecond
+		idle := time.Duration(rapid.IntRange(2000, 4000).Draw(t, "idleMs")) * time.Millisecond
+		bound := window*3/2 + 600*time.Millisecond
+		took, err := reacceptAfterIdle(window, idle, "idle-key")
+		if err != nil {
+			t.Fatalf("violation: %v", err)
+		}
+		if took > bound {
+			lib.Count("reacceptance-after-idle-slow-first-measurement", 1)
+			took2, _ := reacceptAfterIdle(window, idle, "idle-key-confirm")
+			if took2 > bound {
+				t.Fatalf("violation: after the repository had been idle for %v, a key was accepted again only %v (confirmed: %v) after it was first seen; window %v, documented at most 50%% more", idle, took, took2, window)
+			}
+		}
+		lib.Case(fmt.Sprintf("idle|%v|%v", window, idle), true, "reacceptance-after-idle")
+		lib.Sample(map[string]any{"test": "ReacceptanceAfterIdle", "window": window.String(), "idle": idle.String(), "reaccepted_after": took.String()})
+	})
+}
